@@ -19,6 +19,7 @@ explicit hypothesis that this did not happen (`q = false`, a by-product of the i
 node (a regex literal always carries its compiled value).
 -/
 import InfluxQL.Lemmas.Heap
+import InfluxQL.Lemmas.HeapOps
 import InfluxQL.Gen.Clone
 import InfluxQL.Gen.Stores
 
@@ -403,6 +404,358 @@ example :
     let t : List Row := [⟨0, 0, [⟨[], .ptrNode 1, .shared⟩]⟩]
     let h : Heap := [⟨some 1, []⟩, ⟨some 0, [.ref (some 0)]⟩]
     cloneAddr t 1 0 h 1 = some (h ++ [⟨some 0, [.ref (some 0)]⟩], 2, false) ∧ noSharedRefs t = false := by
+  decide
+
+/-! ### Clone-before-modify operations as heap programs (`Model/HeapOps.lean`)
+
+`SelectStatement.Reduce` and `SelectStatement.RewriteFields` are `other := s.Clone()` followed by
+stores into objects found by following fields from `other`.  Below: the field / type numbers the
+transcriptions use, resolved by name in the regenerated table; the obligations that the stores the
+transcriptions perform are exactly the regenerated inventory's stores of the two functions; and the
+theorems that such a call leaves the statement it is called on exactly as it was. -/
+
+def tyId (n : String) : Nat := Gen.structNames.idxOf n.toList
+
+/-- Position of a field in the generated row of (routine, struct), by name. -/
+def fieldIx? (routine ty name : String) : Option Nat :=
+  match findRow Gen.cloneTable (rid routine) (tyId ty) with
+  | some r =>
+    let i := r.fields.findIdx fun f => f.name == name.toList
+    if i < r.fields.length then some i else none
+  | none => none
+
+def fieldIx (routine ty name : String) : Nat := (fieldIx? routine ty name).getD 0
+
+/-- The numbers used by the transcribed bodies, all looked up by name in `Gen.Clone`. -/
+def genIx : Ix where
+  tySubQuery := tyId "SubQuery"
+  tyVarRef := tyId "VarRef"
+  tyCall := tyId "Call"
+  tyBinaryExpr := tyId "BinaryExpr"
+  tyParenExpr := tyId "ParenExpr"
+  tyField := tyId "Field"
+  cloneExpr := rid "CloneExpr"
+  fields := fieldIx "SelectStatement.Clone" "SelectStatement" "Fields"
+  dimensions := fieldIx "SelectStatement.Clone" "SelectStatement" "Dimensions"
+  sources := fieldIx "SelectStatement.Clone" "SelectStatement" "Sources"
+  condition := fieldIx "SelectStatement.Clone" "SelectStatement" "Condition"
+  isRawQuery := fieldIx "SelectStatement.Clone" "SelectStatement" "IsRawQuery"
+  timeAlias := fieldIx "SelectStatement.Clone" "SelectStatement" "TimeAlias"
+  dimExpr := fieldIx "SelectStatement.Clone/Dimensions[]" "Dimension" "Expr"
+  fieldExpr := fieldIx "SelectStatement.Clone/Fields[]" "Field" "Expr"
+  subStatement := fieldIx "cloneSource" "SubQuery" "Statement"
+  varRefType := fieldIx "CloneExpr" "VarRef" "Type"
+  callArgs := fieldIx "CloneExpr" "Call" "Args"
+  binOp := fieldIx "CloneExpr" "BinaryExpr" "Op"
+  binLHS := fieldIx "CloneExpr" "BinaryExpr" "LHS"
+  binRHS := fieldIx "CloneExpr" "BinaryExpr" "RHS"
+  parenExpr := fieldIx "CloneExpr" "ParenExpr" "Expr"
+
+/-- Routine `SelectStatement.Clone` of the generated table. -/
+def selectClone : Nat := rid "SelectStatement.Clone"
+
+/-- Every name `genIx` looks up exists in the regenerated table (a renamed field or routine in /repo
+breaks this). -/
+theorem gen_ix_resolved :
+    ((["SubQuery", "VarRef", "Call", "BinaryExpr", "ParenExpr", "Field", "SelectStatement", "Dimension"].all
+        fun n => decide (tyId n < Gen.structNames.length)) &&
+     (["CloneExpr", "SelectStatement.Clone"].all fun n => decide (rid n < Gen.routineNames.length)) &&
+     ([("SelectStatement.Clone", "SelectStatement", "Fields"), ("SelectStatement.Clone", "SelectStatement", "Dimensions"),
+       ("SelectStatement.Clone", "SelectStatement", "Sources"), ("SelectStatement.Clone", "SelectStatement", "Condition"),
+       ("SelectStatement.Clone", "SelectStatement", "IsRawQuery"), ("SelectStatement.Clone", "SelectStatement", "TimeAlias"),
+       ("SelectStatement.Clone/Dimensions[]", "Dimension", "Expr"), ("SelectStatement.Clone/Fields[]", "Field", "Expr"),
+       ("cloneSource", "SubQuery", "Statement"), ("CloneExpr", "VarRef", "Type"), ("CloneExpr", "Call", "Args"),
+       ("CloneExpr", "BinaryExpr", "Op"), ("CloneExpr", "BinaryExpr", "LHS"), ("CloneExpr", "BinaryExpr", "RHS"),
+       ("CloneExpr", "ParenExpr", "Expr")].all fun (r, t, f) => (fieldIx? r t f).isSome)) = true := by
+  decide
+
+def storesOf (fn : String) (l : List Store) : List Store := l.filter fun s => s.fn == fn.toList
+
+/-- **The stores the heap program of `SelectStatement.Reduce` performs are exactly the stores the
+regenerated inventory lists for that function**, each with base `clone` (derived from `s.Clone()`).
+A new store in /repo — in particular one whose base is the receiver — breaks this equality. -/
+theorem gen_reduce_stores_modelled :
+    storesOf "SelectStatement.Reduce" Gen.readOnlyStores = (reduceBody genIx).stores := by decide
+
+/-- The same for `SelectStatement.RewriteFields` (bases `clone`; `closureParam` for the closure passed
+to `WalkFunc(other.Fields / other.Condition, …)`; `call` for `delete` on the map made by
+`FieldDimensions`, which is a `note`: not a cell of the heap model). -/
+theorem gen_rewriteFields_stores_modelled :
+    storesOf "SelectStatement.RewriteFields" Gen.readOnlyStores = (rewriteFieldsBody genIx).stores := by decide
+
+/-- The transcribed stores are the entries of the reviewed list for the two functions, with the
+reviewed verdicts; none has base `receiver` or `param`. -/
+theorem modelled_stores_reviewed :
+    (reviewedStores.filter fun p =>
+        p.1.fn == "SelectStatement.Reduce".toList || p.1.fn == "SelectStatement.RewriteFields".toList)
+      = ((reduceBody genIx).stores ++ (rewriteFieldsBody genIx).stores).map
+          (fun s => (s, if s.base == .call then Verdict.fresh else Verdict.cloneDerived)) ∧
+    (((reduceBody genIx).stores ++ (rewriteFieldsBody genIx).stores).all
+        fun s => s.base != .receiver && s.base != .param && s.base != .global) = true := by
+  decide
+
+def isReduceFn (fn : List Char) : Bool :=
+  fn == "Reduce".toList || "reduce".toList.isPrefixOf fn || fn == "asLiteral".toList
+
+/-- The inventory side of the assumption `Oracle.Adm` for `Reduce`: the package-level `Reduce`,
+`reduce`, the `reduce…` helpers and `asLiteral` are in the analysed closure and contain no store with
+a non-fresh base at all — they only build new nodes (what they *return* is the assumption). -/
+theorem gen_reduce_family_storeless :
+    (Gen.readOnlyStores.all fun s => !isReduceFn s.fn) = true ∧
+    (["Reduce", "reduce", "reduceBinaryExpr", "reduceCall", "reduceParenExpr", "reduceVarRef", "asLiteral",
+      "CloneExpr"].all fun n => Gen.readOnlyFuncs.contains n.toList) = true := by
+  decide
+
+/-- The in-place rewrites: the stores their transcriptions perform are the inventory's. -/
+theorem gen_inPlace_stores_modelled :
+    storesOf "RewriteExpr" Gen.inPlaceStores = (rewriteExprBody genIx).stores ∧
+    storesOf "SelectStatement.RewriteRegexConditions" Gen.inPlaceStores
+      = storesOf "SelectStatement.RewriteRegexConditions" (rewriteRegexConditionsBody genIx).stores ∧
+    storesOf "SelectStatement.RewriteDistinct" Gen.inPlaceStores = (rewriteDistinctBody genIx).stores ∧
+    storesOf "SelectStatement.RewriteTimeFields" Gen.inPlaceStores = (rewriteTimeFieldsBody genIx).stores ∧
+    storesOf "SelectStatement.SetTimeRange" Gen.inPlaceStores = (setTimeRangeBody genIx).stores := by
+  decide
+
+/-- **Clone-before-modify leaves the receiver alone** — for every table satisfying `TableOK`, every
+body written in `Prog`, every nesting depth, every well-formed heap, every statement address and
+every oracle whose values point only to cells allocated since the call began (`Oracle.Adm`): after a
+run that does not panic (whether it returns the clone or an error),
+
+* every unfolding of `s`, at every depth, is what it was before the call;
+* nothing reachable from the returned statement is reachable from `s`;
+* the history of writes after the clone is `Confined` to the cells allocated since the call began
+  (the clone's cells and newer ones), so the first claim is the frame lemma (`frame_cells`);
+* the run began with the clone of `s` made by the table's routine. -/
+theorem cloneBeforeModify_leaves_receiver {t : List Row} {ifaces} (hT : tableOK t ifaces = true)
+    {fuel depth via : Nat} {body : Prog} {O : Oracle} {h : Heap} (hwf : WF h) (hO : O.Adm h.length)
+    {s : Nat} {h1 : Heap} {other : Nat} {ws : List Write} {ok : Bool}
+    (hrun : runOp t fuel O via body depth h s = some (h1, other, ws, ok)) :
+    (∀ n, unfold n (applyAll h1 ws) s = unfold n h s) ∧
+    (∀ x, Reach (applyAll h1 ws) other x → ¬ Reach (applyAll h1 ws) s x) ∧
+    Confined (fun x => h.length ≤ x) h1 ws ∧
+    (∃ q, cloneAddr t fuel via h s = some (h1, other, q)) := by
+  obtain ⟨q, hcl⟩ := runOp_clone hrun
+  have hs := cloneAddr_lt hcl
+  obtain ⟨g, happ, hret, _⟩ :=
+    runOp_good (tableOK_noSharedRefs hT) hO via body depth h s h1 other ws ok (Inv.start hwf) hrun
+  have hr := good_receiver hwf g hs
+  rw [applyAll_append, happ] at hr
+  exact ⟨hr.1, hr.2 other hret, Above.confined ws h1 g.1.right, q, hcl⟩
+
+/-- **`SelectStatement.Reduce` leaves the statement it is called on exactly as it was**, subqueries
+to any depth included: for the transcription `reduceBody` (whose stores are the inventory's:
+`gen_reduce_stores_modelled`) on the regenerated clone table.  `O` supplies the results of
+`Reduce(expr, valuer)`; the assumption `O.Adm h.length` says they are made of new nodes and nodes of
+the clone. -/
+theorem reduce_leaves_receiver {fuel depth : Nat} {O : Oracle} {h : Heap} (hwf : WF h)
+    (hO : O.Adm h.length) {s : Nat} {h1 : Heap} {stmt : Nat} {ws : List Write} {ok : Bool}
+    (hrun : runOp Gen.cloneTable fuel O selectClone (reduceBody genIx) depth h s = some (h1, stmt, ws, ok)) :
+    (∀ n, unfold n (applyAll h1 ws) s = unfold n h s) ∧
+    (∀ x, Reach (applyAll h1 ws) stmt x → ¬ Reach (applyAll h1 ws) s x) :=
+  let r := cloneBeforeModify_leaves_receiver gen_tableOK hwf hO hrun
+  ⟨r.1, r.2.1⟩
+
+/-- **`SelectStatement.RewriteFields` leaves the statement it is called on exactly as it was**,
+whether it returns the rewritten clone or an error, subqueries to any depth included. -/
+theorem rewriteFields_leaves_receiver {fuel depth : Nat} {O : Oracle} {h : Heap} (hwf : WF h)
+    (hO : O.Adm h.length) {s : Nat} {h1 : Heap} {other : Nat} {ws : List Write} {ok : Bool}
+    (hrun : runOp Gen.cloneTable fuel O selectClone (rewriteFieldsBody genIx) depth h s = some (h1, other, ws, ok)) :
+    (∀ n, unfold n (applyAll h1 ws) s = unfold n h s) ∧
+    (∀ x, Reach (applyAll h1 ws) other x → ¬ Reach (applyAll h1 ws) s x) :=
+  let r := cloneBeforeModify_leaves_receiver gen_tableOK hwf hO hrun
+  ⟨r.1, r.2.1⟩
+
+/-- The statement the two operations start from is the clone of the first sentence: disjoint from `s`
+always, and (partial: when no `needs` guard fired, `q = false`) with the same unfoldings as `s`; the
+history then modifies only that clone and newer cells. -/
+theorem cloneBeforeModify_starts_from_clone_partial {fuel depth : Nat} {body : Prog} {O : Oracle}
+    {h : Heap} (hwf : WF h) {s : Nat} {h1 : Heap} {other : Nat} {ws : List Write} {ok : Bool}
+    (hrun : runOp Gen.cloneTable fuel O selectClone body depth h s = some (h1, other, ws, ok)) :
+    ∃ q, cloneAddr Gen.cloneTable fuel selectClone h s = some (h1, other, q) ∧
+      (∀ x, Reach h1 other x → ¬ Reach h1 s x) ∧
+      (q = false → ∀ n, unfold n h1 other = unfold n h s) := by
+  obtain ⟨q, hcl⟩ := runOp_clone hrun
+  exact ⟨q, hcl, gen_clone_faithful_disjoint hwf hcl⟩
+
+/-- **An in-place rewrite applied to the result leaves the original alone.** `p` is any body run on
+the returned statement itself (no clone): `RewriteRegexConditions`, `RewriteDistinct`,
+`RewriteTimeFields`, `SetTimeRange` are `rewriteRegexConditionsBody`, … (stores = inventory:
+`gen_inPlace_stores_modelled`; their bases are `receiver` / `param` / `closureParam`, and the receiver
+now is `other`). -/
+theorem inPlace_on_result_leaves_receiver {t : List Row} {ifaces} (hT : tableOK t ifaces = true)
+    {fuel depth via : Nat} {body : Prog} {O : Oracle} {h : Heap} (hwf : WF h) (hO : O.Adm h.length)
+    {s : Nat} {h1 : Heap} {other : Nat} {ws : List Write} {ok : Bool}
+    (hrun : runOp t fuel O via body depth h s = some (h1, other, ws, ok))
+    (p : Prog) {fuel' : Nat} {ws2 : List Write} {b : Bool}
+    (hip : runInPlace t fuel' O p (applyAll h1 ws) other = some (ws2, b)) :
+    (∀ n, unfold n (applyAll (applyAll h1 ws) ws2) s = unfold n h s) ∧
+    (∀ x, Reach (applyAll (applyAll h1 ws) ws2) other x → ¬ Reach (applyAll (applyAll h1 ws) ws2) s x) := by
+  obtain ⟨q, hcl⟩ := runOp_clone hrun
+  have hs := cloneAddr_lt hcl
+  have hS := tableOK_noSharedRefs hT
+  obtain ⟨g, happ, hret, _⟩ := runOp_good hS hO via body depth h s h1 other ws ok (Inv.start hwf) hrun
+  have hfin : applyAll h (allocsSince h h1 ++ ws) = applyAll h1 ws := by rw [applyAll_append, happ]
+  have hnone : GoodSelf h.length (fun _ _ => none) := by
+    intro _ _ _ _ _ _ _ hc
+    cases hc
+  have g2 := exec_good hS hO hnone p (applyAll h1 ws) other ws2 b (hfin ▸ g.2) hret hip
+  have hr := good_receiver hwf (g.append (hfin ▸ g2)) hs
+  rw [applyAll_append, hfin] at hr
+  exact ⟨hr.1, hr.2 other hret⟩
+
+/-- The four in-place rewrites of the property's text, on the result of `Reduce` or `RewriteFields`. -/
+theorem inPlaceRewrites_on_result_leave_receiver {fuel depth : Nat} {body : Prog} {O : Oracle} {h : Heap}
+    (hwf : WF h) (hO : O.Adm h.length) {s : Nat} {h1 : Heap} {other : Nat} {ws : List Write} {ok : Bool}
+    (hrun : runOp Gen.cloneTable fuel O selectClone body depth h s = some (h1, other, ws, ok))
+    {p : Prog} (_hp : p ∈ [rewriteRegexConditionsBody genIx, rewriteDistinctBody genIx,
+      rewriteTimeFieldsBody genIx, setTimeRangeBody genIx])
+    {fuel' : Nat} {ws2 : List Write} {b : Bool}
+    (hip : runInPlace Gen.cloneTable fuel' O p (applyAll h1 ws) other = some (ws2, b)) :
+    ∀ n, unfold n (applyAll (applyAll h1 ws) ws2) s = unfold n h s :=
+  (inPlace_on_result_leaves_receiver gen_tableOK hwf hO hrun p hip).1
+
+/-! ### Non-vacuity of the heap programs -/
+
+/-- `SELECT v FROM (SELECT w FROM m WHERE (w)) WHERE (v) GROUP BY t` laid out as a heap. -/
+def subHeap : Heap := [
+  ⟨sid "VarRef", [.val 2, .val 0]⟩,                                   -- 0 VarRef w
+  ⟨sid "Field", [.ref (some 0), .val 0]⟩,                             -- 1 Field
+  ⟨none, [.ref (some 1)]⟩,                                            -- 2 inner Fields
+  ⟨sid "Measurement", [.val 0, .val 0, .val 3, .ref none, .val 0, .val 0]⟩, -- 3 Measurement m
+  ⟨none, [.ref (some 3)]⟩,                                            -- 4 inner Sources
+  ⟨sid "VarRef", [.val 2, .val 0]⟩,                                   -- 5 VarRef w
+  ⟨sid "ParenExpr", [.ref (some 5)]⟩,                                 -- 6 (w)
+  ⟨sid "SelectStatement",
+    [.ref (some 2), .ref none, .ref none, .ref (some 4), .ref (some 6), .ref none,
+     .val 0, .val 0, .val 0, .val 0, .val 0, .val 1, .val 0, .val 0, .lib none,
+     .val 0, .val 0, .val 0, .val 0, .val 0]⟩,                         -- 7 inner SelectStatement
+  ⟨sid "SubQuery", [.ref (some 7)]⟩,                                  -- 8 SubQuery
+  ⟨none, [.ref (some 8)]⟩,                                            -- 9 Sources
+  ⟨sid "VarRef", [.val 1, .val 0]⟩,                                   -- 10 VarRef v
+  ⟨sid "Field", [.ref (some 10), .val 0]⟩,                            -- 11 Field
+  ⟨none, [.ref (some 11)]⟩,                                           -- 12 Fields
+  ⟨sid "VarRef", [.val 1, .val 0]⟩,                                   -- 13 VarRef v
+  ⟨sid "ParenExpr", [.ref (some 13)]⟩,                                -- 14 (v)
+  ⟨sid "VarRef", [.val 4, .val 0]⟩,                                   -- 15 VarRef t
+  ⟨sid "Dimension", [.ref (some 15)]⟩,                                -- 16 Dimension
+  ⟨none, [.ref (some 16)]⟩,                                           -- 17 Dimensions
+  ⟨sid "SelectStatement",
+    [.ref (some 12), .ref none, .ref (some 17), .ref (some 9), .ref (some 14), .ref none,
+     .val 0, .val 0, .val 0, .val 0, .val 0, .val 1, .val 0, .val 0, .lib none,
+     .val 0, .val 0, .val 0, .val 0, .val 0]⟩                          -- 18 SelectStatement
+]
+
+/-- An oracle: every computed expression is a new `BooleanLiteral`, every computed scalar is 5; the
+walk of `RewriteFields` visits `other.Fields[0].Expr`; every conditional is taken; no error. -/
+def sampleOracle : Oracle where
+  build := fun h a _ =>
+    if (h[a]?.map (·.ty)) = some (sid "VarRef") then ⟨[], .val 5⟩
+    else ⟨[⟨sid "BooleanLiteral", [.val 1]⟩], .ref (some h.length)⟩
+  index := fun _ _ => 0
+  visit := fun _ _ site => if site = 0 then [[genIx.fields, 0, genIx.fieldExpr]] else [[]]
+  fails := fun _ _ => false
+
+/-- The sample oracle is admissible for every line. -/
+theorem sampleOracle_adm (lo : Nat) : sampleOracle.Adm lo := by
+  intro h a f hle
+  unfold sampleOracle Fresh.Adm
+  dsimp only
+  split
+  · refine ⟨?_, ?_⟩
+    · intro c hc
+      cases hc
+    · intro r hr
+      cases hr
+  · refine ⟨?_, ?_⟩
+    · intro c hc r hr
+      cases List.mem_singleton.mp hc
+      simp at hr
+    · intro r hr
+      cases hr
+      exact ⟨hle, by simp⟩
+
+theorem subHeap_wf : WF subHeap := wfb_sound (by decide)
+
+/-- `Reduce` on the sample, nesting depth 1: the clone occupies cells 19–37; the history has 15
+writes (4 new literals, the 8 cells of the nested clone, 4 stores); the call returns the clone. -/
+example : (runOp Gen.cloneTable 8 sampleOracle selectClone (reduceBody genIx) 3 subHeap 18).map
+    (fun r => (r.1.length, r.2.1, r.2.2.1.length, r.2.2.2)) = some (38, 37, 15, true) := by
+  decide
+
+/-- The four stores, in order: `stmt.Condition`, `d.Expr`, the nested call's `stmt.Condition`,
+`source.Statement` — every base is a cell of the clone (≥ 19) or newer. -/
+example : (runOp Gen.cloneTable 8 sampleOracle selectClone (reduceBody genIx) 3 subHeap 18).map
+    (fun r => r.2.2.1.filterMap fun w => match w with
+      | .set a i v => some (a, i, v)
+      | .alloc _ => none)
+    = some [(37, genIx.condition, .ref (some 38)), (23, genIx.dimExpr, .ref (some 39)),
+            (47, genIx.condition, .ref (some 48)), (33, genIx.subStatement, .ref (some 47))] := by
+  decide
+
+/-- `RewriteFields` on the sample: 19 writes, among them `ref.Type = typ` on the nested and on the
+outer clone's first field, `other.Fields`, `other.Dimensions` on both, `src.Statement`. -/
+example : (runOp Gen.cloneTable 8 sampleOracle selectClone (rewriteFieldsBody genIx) 3 subHeap 18).map
+    (fun r => (r.1.length, r.2.1, r.2.2.2, r.2.2.1.filterMap fun w => match w with
+      | .set a i _ => some (a, i)
+      | .alloc _ => none))
+    = some (38, 37, true, [(38, genIx.varRefType), (45, genIx.fields), (45, genIx.dimensions),
+        (33, genIx.subStatement), (19, genIx.varRefType), (37, genIx.fields), (37, genIx.dimensions)]) := by
+  decide
+
+/-- The theorem applied to the sample: whatever the run of `Reduce` returns, statement 18 unfolds
+as before. -/
+example {h1 : Heap} {stmt : Nat} {ws : List Write} {ok : Bool}
+    (hrun : runOp Gen.cloneTable 8 sampleOracle selectClone (reduceBody genIx) 3 subHeap 18 = some (h1, stmt, ws, ok)) :
+    ∀ n, unfold n (applyAll h1 ws) 18 = unfold n subHeap 18 :=
+  (reduce_leaves_receiver subHeap_wf (sampleOracle_adm _) hrun).1
+
+/-- `RewriteRegexConditions`-shaped in-place body on the result of `Reduce`: it runs, and stores into
+cell 37 (the clone). -/
+example :
+    ((runOp Gen.cloneTable 8 sampleOracle selectClone (reduceBody genIx) 3 subHeap 18).bind fun r =>
+      runInPlace Gen.cloneTable 8 sampleOracle (setTimeRangeBody genIx) (applyAll r.1 r.2.2.1) r.2.1).map
+      (fun o => o.1.filterMap fun w => match w with
+        | .set a i _ => some (a, i)
+        | .alloc _ => none)
+    = some [(37, genIx.condition)] := by
+  decide
+
+/-- The assumption matters: an oracle that hands back a node of the receiver (cell 14, the
+receiver's condition) is not admissible, and the statement `Reduce` then returns points into the
+receiver. -/
+example :
+    let bad : Oracle := { sampleOracle with build := fun _ _ _ => ⟨[], .ref (some 14)⟩ }
+    ¬ bad.Adm subHeap.length ∧
+    (runOp Gen.cloneTable 8 bad selectClone (reduceBody genIx) 3 subHeap 18).map
+      (fun r => readRef (applyAll r.1 r.2.2.1) r.2.1 genIx.condition) = some (some (some 14)) := by
+  refine ⟨?_, by decide⟩
+  intro hadm
+  have := (hadm subHeap 0 0 (Nat.le_refl _)).2 14 rfl
+  exact absurd this.1 (by decide)
+
+/-- `SELECT mean(*) FROM m`: the `case *Call` branch of `RewriteFields`. -/
+def callHeap : Heap := [
+  ⟨sid "Wildcard", [.val 0]⟩,                                         -- 0 *
+  ⟨none, [.ref (some 0)]⟩,                                            -- 1 Args
+  ⟨sid "Call", [.val 7, .ref (some 1)]⟩,                              -- 2 mean(*)
+  ⟨sid "Field", [.ref (some 2), .val 0]⟩,                             -- 3 Field
+  ⟨none, [.ref (some 3)]⟩,                                            -- 4 Fields
+  ⟨sid "Measurement", [.val 0, .val 0, .val 3, .ref none, .val 0, .val 0]⟩, -- 5 Measurement m
+  ⟨none, [.ref (some 5)]⟩,                                            -- 6 Sources
+  ⟨sid "SelectStatement",
+    [.ref (some 4), .ref none, .ref none, .ref (some 6), .ref none, .ref none,
+     .val 0, .val 0, .val 0, .val 0, .val 0, .val 1, .val 0, .val 0, .lib none,
+     .val 0, .val 0, .val 0, .val 0, .val 0]⟩                          -- 7 SelectStatement
+]
+
+/-- The clone is cells 8–15; `template := CloneExpr(expr)` is cells 16–18 (a copy of a node of the
+clone); `call.Args[0] = &VarRef{…}` writes slot 0 of the template's argument array (cell 17); then
+`other.Fields`, `other.Dimensions`. -/
+example : (runOp Gen.cloneTable 8 sampleOracle selectClone (rewriteFieldsBody genIx) 1 callHeap 7).map
+    (fun r => (r.1.length, r.2.1, r.2.2.2, r.2.2.1.filterMap fun w => match w with
+      | .set a i _ => some (a, i)
+      | .alloc _ => none))
+    = some (16, 15, true, [(17, 0), (15, genIx.fields), (15, genIx.dimensions)]) := by
   decide
 
 end InfluxQL.Props.C14
